@@ -24,7 +24,7 @@ def option_method(name):
     st = S()
 
     def f(I, a, fr, d):
-        o = deref(a[0]) if name in ("is_some", "is_none", "as_ref", "as_mut", "as_deref", "cloned", "copied", "take", "insert", "get_or_insert_with", "get_or_insert", "replace") else a[0]
+        o = deref(a[0])
         is_some = o.variant == "Some"
         val = o.cells[0].v if is_some else None
         if name == "is_some": return is_some
@@ -97,7 +97,7 @@ def result_method(name):
     st = S()
 
     def f(I, a, fr, d):
-        r = deref(a[0]) if name in ("is_ok", "is_err", "as_ref", "as_mut") else a[0]
+        r = deref(a[0])
         is_ok = r.variant == "Ok"
         val = r.cells[0].v
         if name == "is_ok": return is_ok
@@ -1054,6 +1054,13 @@ def mutex_method(name):
 def string_method(name):
     def f(I, a, fr, d):
         if name == "new": return Seq([], "string")
+        if name == "from" and isinstance(deref(a[0]), StrV): return deref(a[0])
+        s0 = deref(a[0]) if a else None
+        if isinstance(s0, StrV):
+            if name in ("len", "is_empty", "as_bytes"): return str_method(name)(I, a, fr, d)
+            if name in ("as_str", "clone", "to_string", "to_owned", "into_boxed_str"): return s0
+        if isinstance(s0, Opaque) and name in ("len", "is_empty", "as_bytes", "as_str"):
+            raise Unmodelled("String::" + name + " of a formatted (uninterpreted) string")
         if name in ("len",): return usize(len(deref(a[0]).cells))
         if name in ("push_str", "push"): return unit()
         return NotImplemented
